@@ -193,10 +193,12 @@ def build(name, t=0):
         base[bc] = 0
         other = np.sin(0.2 + 0.6 * np.arange(nd))
         other[bc] = 0
-        Fs = [1e6 * base, other, 1e-3 * (base + other)]
+        # (a guess that is 1e7 times too large limits the attainable accuracy to about eps*1e7*cond, far below the 1e-4
+        # this net is judged with; a tolerance test relative to the initial residual would be off by 1e-3)
+        Fs = [1e6 * base, other, 1e-1 * (base + other)]
         rhs = pym.Signal('f', Fs[0].copy())
         net = pym.Network()
-        u = net.append(pym.LinSolve([Ks, rhs], solver=ps.CG(preconditioner=ps.SOR(), tol=1e-11)))
+        u = net.append(pym.LinSolve([Ks, rhs], solver=ps.CG(preconditioner=ps.SOR(), tol=1e-9)))
         c = net.append(pym.EinSum([u, rhs], expression='i,i->'))
         v = net.append(pym.EinSum([u, u], expression='i,i->'))
         sources, tables = [rhs], [[F_] for F_ in Fs]
@@ -364,7 +366,7 @@ def class_change(name, seq, cycles):
 
 def run_history(name, t, seq, cycles):
     """returns (ops, violation tuple or None)"""
-    tol = 1e-6 if name in ('N3', 'N11', 'N14', 'N16') else 1e-9
+    tol = 1e-4 if name == 'N16' else 1e-6 if name in ('N3', 'N11', 'N14') else 1e-9
     w = build(name, t)
     net = w['net']
     seeded = False
@@ -426,7 +428,7 @@ def run_history(name, t, seq, cycles):
                     return nops, ('state_differs_from_fresh', {'net': name, 'input_class_changed': changed},
                                   {'seq': seq, 'cycles': cycles[:c + 1], 'signal': w['sigs'][idx].tag, 'rel': d})
             for idx, (a, b) in enumerate(zip(gs, rgs)):
-                ok, d = close(a, b, tol * (1e3 if name in ('N3', 'N11', 'N14', 'N16') else 1))
+                ok, d = close(a, b, tol * (1e3 if name in ('N3', 'N11', 'N14') else 1))
                 if not ok:
                     return nops, ('sensitivity_differs_from_fresh', {'net': name, 'input_class_changed': changed},
                                   {'seq': seq, 'cycles': cycles[:c + 1], 'source': idx, 'rel': d})
@@ -446,7 +448,7 @@ def run_history(name, t, seq, cycles):
                         return nops, ('state_changed_by_sensitivity_pass', {'net': name},
                                       {'seq': seq, 'cycles': cycles[:c + 1], 'signal': w['sigs'][idx].tag, 'rel': d})
                 for idx, (a, b) in enumerate(zip(src_sens(w), ref2[1])):
-                    ok, d = close(a, b, tol * (1e3 if name in ('N3', 'N11', 'N14', 'N16') else 1))
+                    ok, d = close(a, b, tol * (1e3 if name in ('N3', 'N11', 'N14') else 1))
                     if not ok:
                         return nops, ('reseeded_pass_differs_from_fresh', {'net': name, 'input_class_changed': changed},
                                       {'seq': seq, 'cycles': cycles[:c + 1], 'pass': q + 2, 'source': idx, 'rel': d})
